@@ -91,3 +91,16 @@ CHECKS["C06"] = {
         {"part": "step", "crate": "vdb", "bin": "c06_step", "budget_quick": 35, "budget_thorough": 1500},
     ],
 }
+
+CHECKS["C08"] = {
+    "level": "fault_enumeration",
+    "engine": "CRASH (ctlstore journal-prefix replay) + STEP (choice-DFS over inner-store calls)",
+    "technique": "exhaustive crash-prefix enumeration of every operation sequence to a length bound on both wrappers, plus exhaustive preemption-bounded interleaving enumeration of collect_garbage against in-process writers, on the real anda_object_store code",
+    "design_ref": "DESIGN.md 5/C08",
+    "text": "crash: every sequence of <= 3 (quick) / 4 (thorough) operations over 13 choices (put, multipart, copy, rename in both target modes, delete, collect_garbage) on two keys, both wrappers (EncryptedStore at chunk size 16), from 4 start states plus legacy pre-0.10 / sealed-legacy layouts; for every inner-store journal prefix inside the last operation a cold wrapper must read every key (get, ranged get, get_ranges, head, list) as exactly the old or the new value, a rename never loses both ends, no unknown key is listed; garbage collection is then run (after a clock jump) and itself crashed after each of its own mutations, recovery puts must read back, and every operation is re-run from the crash state against the model. step: collect_garbage racing one or two writers (put, multipart complete, copy, delete, rename) under every schedule up to the preemption bound, from start states that already contain garbage, with the writer's generation on both sides of the GC floor and writers on the collector's own or a second instance: no referenced or in-flight payload is reclaimed, after every single mutation every commit point's payload exists, live and cold reads agree, the outcome is explained by a real-time-consistent order of commit micro-steps.",
+    "note": "Crash state = journal prefix (atomic, ordered backend mutations). Logical clock from the verif feature. Foreign-instance writers start after GC captured its floor (documented contract). Sequences longer than the bound, more than two keys, >2 concurrent writers and pair schedules beyond preemption bound 2 are not claimed.",
+    "parts": [
+        {"part": "crash", "crate": "vgc", "bin": "c08_crash", "budget_quick": 26, "budget_thorough": 900},
+        {"part": "step", "crate": "vgc", "bin": "c08_step", "budget_quick": 16, "budget_thorough": 600},
+    ],
+}
